@@ -388,6 +388,20 @@ pub fn run(ctx: &Ctx) -> PropResult {
         let (pd, e2e) = if on_disk && std::fs::write(&path, &bytes).is_ok() { (Some(path.to_string_lossy().to_string()), Some(path.as_path())) } else { (None, None) };
         judge_file(rec, rng, &name, pd.as_deref(), &bytes, "synthetic", 60, dref, e2e);
     }));
+    // a well-formed file larger than 64 KiB / 128 KiB (9 000 and 17 000 transitions): through the byte entry point and,
+    // installed as /etc/localtime, through Offset::Local (a size cap or a short read on that path shows only there)
+    wls.push(Workload::cases("large_files_end_to_end", 2, move |rec, idx, rng| {
+        let n: i64 = if idx == 0 { 9_000 } else { 17_000 };
+        let transitions: Vec<i64> = (0..n).map(|k| -2_000_000_000 + k * (3_900_000_000 / n)).collect();
+        let type_idx: Vec<u8> = (0..n).map(|k| if k == n - 1 { 0 } else { (k % 2) as u8 }).collect();
+        let s = crate::model::tzif_gen::Synth { version: 2, transitions, type_idx, types: vec![(3_600, false), (7_200, true)], footer: "XXX-1".to_string() };
+        let bytes = s.bytes();
+        rec.bin(if bytes.len() > 131_072 { "file/larger-than-128KiB" } else { "file/larger-than-64KiB" });
+        let path = sd.join(format!("large_{}_{}.tzif", std::process::id(), idx));
+        let e2e = if std::fs::write(&path, &bytes).is_ok() { Some(path.as_path()) } else { None };
+        judge_file(rec, rng, &format!("synthetic-large#{} ({} bytes)", idx, bytes.len()), None, &bytes, "synthetic", 40, dref, e2e);
+        let _ = std::fs::remove_file(&path);
+    }));
     wls.push(Workload::cases("interleaved_lookups_across_zones", ctx.count(250, 10_000), move |rec, _idx, rng| {
         let mut zones: Vec<(String, Vec<u8>)> = vec![];
         // one table as a v1 file (no footer) and as a v2/v3 file (with footer) ...
@@ -425,7 +439,7 @@ pub fn run(ctx: &Ctx) -> PropResult {
     );
     meta.required_bins = vec![
         "file/v1", "file/v2", "file/v3", "footer/fixed", "footer/M-rules", "footer/J-rules", "footer/n-rules", "footer/negative-dst", "footer/southern-hemisphere", "table/empty", "table/non-empty",
-        "lookup/at-a-transition", "lookup/between-transitions", "lookup/at-last-transition", "lookup/after-last-rule-dst", "lookup/after-last-rule-std", "lookup/no-table-footer", "end-to-end/Offset::Local", "interleaved/judged",
+        "lookup/at-a-transition", "lookup/between-transitions", "lookup/at-last-transition", "lookup/after-last-rule-dst", "lookup/after-last-rule-std", "lookup/no-table-footer", "end-to-end/Offset::Local", "interleaved/judged", "file/larger-than-64KiB", "file/larger-than-128KiB",
     ];
     meta.assumptions = vec!["tzif_ref is the reference; its agreement with CPython zoneinfo on the dumped lookups is checked by the driver (disagreement ⇒ inconclusive)".into()];
     Ok((meta, out))
